@@ -327,9 +327,11 @@ func (rn *runner) runOnce(st *site) (res siteResult, lr *learned, fatal error) {
 				return true, err
 			}
 			c.S = ns
-			// a restart may pick up (or drop) what a failed call left half done
+			// a restart may pick up what a failed call left half done (resurrection rule, A.1)
 			for _, r := range touched {
-				c.Uncertain[r] = true
+				if _, p := c.Present[r]; !p {
+					c.Uncertain[r] = true
+				}
 			}
 			return true, nil
 		}
@@ -488,12 +490,19 @@ func (rn *runner) runOnce(st *site) (res siteResult, lr *learned, fatal error) {
 			break
 		}
 		c.S = ns
+		// Resurrection rule (A.1): a ref that is absent may come back through the recovery only if the
+		// faulted call named it (its record / meta blob may have been written completely), or, for
+		// blobpacked, if it was removed (documented).  Whatever is certain-present must survive.
 		for _, r := range touched {
-			c.Uncertain[r] = true // A.1: the faulted call may have left a fully written record behind
+			if _, p := c.Present[r]; !p {
+				c.Uncertain[r] = true
+			}
 		}
 		if rc.Resurrects {
 			for r := range everRemoved {
-				c.Uncertain[r] = true // documented: recovery may restore removed packed blobs
+				if _, p := c.Present[r]; !p {
+					c.Uncertain[r] = true
+				}
 			}
 		}
 		c.Audit(prng, false)
